@@ -482,7 +482,7 @@ def coq_str(s):
     parts = []
     for c in b:
         parts.append('String (Ascii.ascii_of_nat %d)' % c)
-    return "(" + " (".join(parts) + " EmptyString" + ")" * len(parts) + ")"
+    return "(" + " (".join(parts) + " EmptyString" + ")" * len(parts)
 
 
 def coq_spec(s):
@@ -543,3 +543,381 @@ def size(t):
     if t[0] == "neg":
         return 1 + size(t[2])
     return 1 + size(t[1]) + size(t[2])
+
+
+# ------------------------------------------------------------------ mirror of Coq ok_stmt (reasons for classification)
+import re as _re
+
+_IDENT = _re.compile(r"^[a-z][A-Za-z0-9_]*$")
+_VARRE = _re.compile(r"^[A-Z_][A-Za-z0-9_]*$")
+_QUOTED = _re.compile(r"^'[^'\\]*'$")
+_FLTRE = _re.compile(r"^[0-9]+(\.[0-9]+)?(e[+-]?[0-9]+)?$")
+PREFIX = dict(UNOPS)
+PREFIX["\\+"] = (900, "fy")
+PREFIX["not"] = (900, "fy")
+READER_BINOPS = {k: v for k, v in BINOPS.items() if k not in ("|", "&")}
+
+
+def leftmax(p, s):
+    return p if s == "yfx" else p - 1
+
+
+def rightmax(p, s):
+    return p if s == "xfy" else p - 1
+
+
+def opmax(p, s):
+    return p if s == "fy" else p - 1
+
+
+def eff(m, t):
+    k = t[0]
+    if k == "int":
+        return 200 if t[1] < 0 else 0
+    if k == "flt":
+        return 200 if t[1] else 0
+    if k in ("bin", "un"):
+        return t[2]
+    if k == "neg":
+        return 900
+    if k == "and":
+        return 1000 if m in ("top", "andt") else 0
+    if k == "or":
+        return 0 if m == "andt" else 1100
+    if k == "prob":
+        return 1000
+    return 0
+
+
+def rlev(m, t):
+    k = t[0]
+    if k == "bin":
+        return rightmax(t[2], t[3])
+    if k == "un":
+        return opmax(t[2], t[3])
+    if k == "prob":
+        return 999
+    return eff(m, t)
+
+
+def ct_capable(n):
+    if len(n) == 0:
+        return False
+    if len(n.encode("utf8")) == 1:
+        return True
+    return n[0] not in SYMCH
+
+
+def starts_open_in(t):
+    s = p_in(t)
+    return s[:1] in ("(", "[")
+
+
+def bare_left(p, s, a):
+    pa = ann_prio(a)
+    return pa is None or pa < p or (pa == p and s == "yfx")
+
+
+def bare_right(p, s, b):
+    pb = ann_prio(b)
+    return pb is None or pb < p or (pb == p and s == "xfy")
+
+
+def _ok(m, t, out):
+    """appends the reasons why Coq's [ok m t] is false (empty <=> true)"""
+    k = t[0]
+    if k in ("var", "int", "flt", "str"):
+        return
+    if k == "app":
+        f, args = t[1], t[2]
+        if not args:
+            if not (f == "[]" or (f not in PREFIX and f != ":-")):
+                out.append("atom-is-prefix-operator")
+            return
+        if not ct_capable(f):
+            out.append("functor-not-ct-capable")
+        for a in args:
+            _ok("in", a, out)
+            if eff("in", a) > 999:
+                out.append("arg-priority")
+        return
+    if k == "cons":
+        cur = t
+        while cur[0] == "cons":
+            _ok("in", cur[1], out)
+            if eff("in", cur[1]) > 999:
+                out.append("arg-priority")
+            cur = cur[2]
+        if not is_nil(cur):
+            _ok("in", cur, out)
+            if eff("in", cur) > 999:
+                out.append("arg-priority")
+        return
+    if k == "bin":
+        n, p, s, a, b = t[1:]
+        if READER_BINOPS.get(n) != (p, s):
+            out.append("op-table")
+        _ok("in", a, out)
+        _ok("in", b, out)
+        if bare_left(p, s, a):
+            if eff("in", a) > leftmax(p, s):
+                out.append("left-operand-priority")
+            elif not rlev("in", a) < p:
+                out.append("left-operand-rlevel")
+        if bare_right(p, s, b) and eff("in", b) > rightmax(p, s):
+            out.append("right-operand-priority")
+        return
+    if k == "un":
+        n, p, s, a = t[1:]
+        if PREFIX.get(n) != (p, s) or n in ("\\+", "not"):
+            out.append("op-table")
+        if n == "-" and a[0] in ("int", "flt"):
+            out.append("minus-number")
+        if is_alpha_start(n):
+            out.append("op-table")
+        if ct_capable(n) and starts_open_in(a):
+            out.append("unary-operand-paren")
+        _ok("in", a, out)
+        if eff("in", a) > opmax(p, s):
+            out.append("unary-operand-priority")
+        return
+    if k == "neg":
+        f, a = t[1], t[2]
+        if m == "top":
+            if f not in ("\\+", "not"):
+                out.append("neg-functor")
+            _ok("top", a, out)
+            if not (core(a)[0] in ("and", "or") or eff("top", a) <= 900):
+                out.append("neg-operand-priority")
+        else:
+            if f != "\\+":
+                out.append("not-inner")
+            _ok("in", a, out)
+        return
+    if k == "and":
+        a, b = t[1], t[2]
+        if m == "top":
+            _ok("top", a, out)
+            _ok("top", b, out)
+            if not (core(a)[0] == "or" or (eff("top", a) <= 999 and rlev("top", a) < 1000)):
+                out.append("and-left-priority")
+            if not (core(b)[0] == "or" or eff("top", b) <= 1000):
+                out.append("and-right-priority")
+        else:
+            _ok("in", a, out)
+            _ok("andt", b, out)
+            if not (core(a)[0] == "or" or (eff("in", a) <= 999 and rlev("in", a) < 1000)):
+                out.append("arg-priority")
+            if not eff("andt", b) <= 1000:
+                out.append("arg-priority")
+        return
+    if k == "or":
+        a, b = t[1], t[2]
+        if m == "top":
+            _ok("top", a, out)
+            _ok("top", b, out)
+            if not (eff("top", a) <= 1099 and rlev("top", a) < 1100):
+                out.append("or-left-priority")
+            if not eff("top", b) <= 1100:
+                out.append("or-right-priority")
+        else:
+            _ok("in", a, out)
+            _ok("ort", b, out)
+            if not (eff("in", a) <= 1099 and rlev("in", a) < 1100):
+                out.append("arg-priority")
+            if not eff("ort", b) <= 1100:
+                out.append("arg-priority")
+        return
+    if k == "prob":
+        p, u = t[1], t[2]
+        if u[0] != "app":
+            out.append("prob-on-nonplain")
+        _ok("in", u, out)
+        _ok("top", p, out)
+        if not (eff("top", p) <= 999 and rlev("top", p) < 1000):
+            out.append("prob-priority")
+        return
+    raise ValueError(k)
+
+
+def first_name(m, t):
+    """name of the first token of pr m t when that token is a name, else None"""
+    k = t[0]
+    if k == "int":
+        return "-" if t[1] < 0 else None
+    if k == "flt":
+        return "-" if t[1] else None
+    if k in ("var", "str", "cons"):
+        return None
+    if k == "app":
+        return None if (t[1] == "[]" and not t[2]) else t[1]
+    if k == "bin":
+        return first_name("in", t[4]) if bare_left(t[2], t[3], t[4]) else None
+    if k == "un":
+        return t[1]
+    if k == "neg":
+        return t[1]
+    if k == "and":
+        if m == "top":
+            return None if core(t[1])[0] == "or" else first_name("top", t[1])
+        if m == "andt":
+            return None if core(t[1])[0] == "or" else first_name("in", t[1])
+        return None
+    if k == "or":
+        if m == "top":
+            return first_name("top", t[1])
+        if m == "andt":
+            return None
+        return first_name("in", t[1])
+    if k == "prob":
+        u = t[2]
+        if u[0] in ("app", "var", "int", "flt", "str", "neg"):
+            if m == "top" and u[0] in ("neg", "int", "flt", "str"):
+                return first_name("top", u)
+            return first_name("top", t[1])
+        return first_name(m, u)
+    raise ValueError(k)
+
+
+def _first_tok_is_neck(t):
+    return first_name("top", t) == ":-"
+
+
+def _head_ok(lim, h, out):
+    _ok("top", h, out)
+    if h[0] == "or":
+        out.append("head-or")
+    if not (eff("top", h) <= lim and rlev("top", h) <= lim):
+        out.append("head-priority")
+
+
+def is_directive_head(h):
+    c = core(h)
+    return (c[0] == "app" and c[1] == "_directive") or (c[0] == "var" and c[1] == "_directive")
+
+
+def why_not_ok(s):
+    """reasons why Coq's ok_stmt is false; [] <=> ok_stmt s = true"""
+    out = []
+    k = s[0]
+    if k == "fact":
+        _ok("top", s[1], out)
+        if eff("top", s[1]) > 1199:
+            out.append("fact-priority")
+        if _first_tok_is_neck(s[1]):
+            out.append("starts-with-neck")
+    elif k == "clause":
+        if is_directive_head(s[1]):
+            out.append("directive-head")
+        _head_ok(1199, s[1], out)
+        _ok("top", s[2], out)
+        if eff("top", s[2]) > 1199:
+            out.append("body-priority")
+        if _first_tok_is_neck(s[1]):
+            out.append("starts-with-neck")
+    elif k == "directive":
+        _ok("top", s[1], out)
+        if eff("top", s[1]) > 1199:
+            out.append("body-priority")
+    elif k == "ad":
+        if len(s[1]) < 2:
+            out.append("ad-single")
+        for h in s[1]:
+            _head_ok(1099, h, out)
+        _ok("top", s[2], out)
+        if eff("top", s[2]) > 1199:
+            out.append("body-priority")
+        if s[1] and _first_tok_is_neck(s[1][0]):
+            out.append("starts-with-neck")
+    return out
+
+
+def subterms(t):
+    yield t
+    k = t[0]
+    if k == "app":
+        for a in t[2]:
+            yield from subterms(a)
+    elif k == "bin":
+        yield from subterms(t[4])
+        yield from subterms(t[5])
+    elif k == "un":
+        yield from subterms(t[4])
+    elif k == "neg":
+        yield from subterms(t[2])
+    elif k in ("and", "or", "cons", "prob"):
+        yield from subterms(t[1])
+        yield from subterms(t[2])
+
+
+def stmt_terms(s):
+    k = s[0]
+    if k == "fact" or k == "directive":
+        yield from subterms(s[1])
+    elif k == "clause":
+        yield from subterms(s[1])
+        yield from subterms(s[2])
+    else:
+        for h in s[1]:
+            yield from subterms(h)
+        yield from subterms(s[2])
+
+
+def lexical_reasons(s):
+    """features outside the lexical fragment of the reference tokenizer"""
+    out = []
+    for t in stmt_terms(s):
+        k = t[0]
+        if k == "var" and not _VARRE.match(t[1]):
+            out.append("var-name")
+        elif k == "flt" and not _FLTRE.match(t[2]):
+            out.append("float-text")
+        elif k == "str" and not _re.match(r'^[^"\\]*$', t[1]):
+            out.append("string-content")
+        elif k == "app" and t[1] != "[]":
+            f = t[1]
+            if not ((_IDENT.match(f) and f not in ALPHA_RESERVED) or _QUOTED.match(f)):
+                if f and (f[0] in SYMCH or f in ALPHA_RESERVED or f in (";", "|", "!", "?", ",")):
+                    out.append("operator-symbol-as-atom")
+                else:
+                    out.append("atom-text")
+    return out
+
+
+def _starts_prefix_sym(txt):
+    txt = txt.lstrip()
+    return txt[:1] in ("-", "+", "~") or (txt[:1] == "\\" and txt[1:2] != "+")
+
+
+def has_nested_prefix(s):
+    """a prefix operator (unary operator, top-level negation, directive neck) whose operand text
+    starts with another prefix operator symbol: PrologParser answers 'Ambiguous token role' or misreads"""
+    if s[0] == "directive" and _starts_prefix_sym(p_top(s[1])):
+        return True
+    tops = set()
+
+    def walk_top(t):
+        # terms printed by the overriding __repr__ methods (And/Or/Not at statement level)
+        if t[0] in ("and", "or"):
+            walk_top(t[1])
+            walk_top(t[2])
+        elif t[0] == "neg":
+            tops.add(id(t))
+            if core(t[2])[0] not in ("and", "or") and _starts_prefix_sym(p_top(t[2])):
+                tops.add("hit")
+            walk_top(t[2])
+    if s[0] in ("fact", "directive"):
+        walk_top(s[1])
+    elif s[0] == "clause":
+        walk_top(s[1])
+        walk_top(s[2])
+    else:
+        for h in s[1]:
+            walk_top(h)
+        walk_top(s[2])
+    if "hit" in tops:
+        return True
+    for t in stmt_terms(s):
+        if t[0] == "un" and _starts_prefix_sym(p_in(t[4])):
+            return True
+    return False
